@@ -92,6 +92,7 @@ def run(chk, repo, tier):
                    floor=1)
     C04b.theta_cursor(chk, P12, repo)
     C04b.run_p13_p15(chk, repo)
+    C04b.run_p16(chk, repo)
 
     tm = repo.module(f'{NM}.records.theta_record')
     om = repo.module(f'{NM}.records.omega_record')
